@@ -1722,7 +1722,7 @@ func c13R5(c *kit.Ctx, m *ruModel, r5 *kit.Rule) {
 		}
 		st.OnCall = func(call *ast.CallExpr, n ast.Node, s kit.S) []kit.S {
 			// a send: callee of the module receiving (string target, data.Point)
-			cf := f.CalleeFunc(call)
+			cf := st.Cur().CalleeFunc(call)
 			if cf == nil || len(call.Args) < 2 {
 				return nil
 			}
@@ -1837,7 +1837,23 @@ func c13R5(c *kit.Ctx, m *ruModel, r5 *kit.Rule) {
 			}
 			return
 		}
+		// a helper that is handed the current action (or its address) is evaluated
+		// inline: the body of a case may have moved into a method of its own
+		restore := m.follow(st)
+		st.ShouldInline = func(cf *kit.Func, call *ast.CallExpr) bool {
+			xs := append([]ast.Expr{}, call.Args...)
+			if sel, ok := ast.Unparen(call.Fun).(*ast.SelectorExpr); ok {
+				xs = append(xs, sel.X)
+			}
+			for _, a := range xs {
+				if t := info.TypeOf(a); t != nil && types.Identical(ruDeref(t), m.action) && m.isElemOf(f, a, m.action) {
+					return true
+				}
+			}
+			return false
+		}
 		res := g.Run(kit.NewS(), bf.Client())
+		restore()
 		if res.Overflow {
 			c.Fatalf("%s: state space overflow", f.Name)
 		}
@@ -1856,6 +1872,39 @@ func c13R5(c *kit.Ctx, m *ruModel, r5 *kit.Rule) {
 				}
 			}
 		}
+		// calls that receive the current action (argument or receiver) without
+		// having been evaluated inline
+		var opaque []string
+		scan := []*kit.Func{f}
+		for cf := range st.Inlined {
+			scan = append(scan, cf)
+		}
+		for _, fn := range scan {
+			ast.Inspect(fn.Body, func(n ast.Node) bool {
+				call, ok := n.(*ast.CallExpr)
+				if !ok {
+					return true
+				}
+				xs := append([]ast.Expr{}, call.Args...)
+				if sel, ok := ast.Unparen(call.Fun).(*ast.SelectorExpr); ok {
+					xs = append(xs, sel.X)
+				}
+				gets := false
+				for _, x := range xs {
+					if t := info.TypeOf(x); t != nil && types.Identical(ruDeref(t), m.action) && m.isElemOf(fn, x, m.action) {
+						gets = true
+					}
+				}
+				if !gets {
+					return true
+				}
+				cf := fn.CalleeFunc(call)
+				if (cf != nil && !st.Inlined[cf]) || (cf == nil && kit.Callee(info, call) == nil) {
+					opaque = append(opaque, fn.At(call))
+				}
+				return true
+			})
+		}
 		switch {
 		case len(loops) == 0:
 			o.Undecided("no loop over the action list in %s", f.Name)
@@ -1863,6 +1912,9 @@ func c13R5(c *kit.Ctx, m *ruModel, r5 *kit.Rule) {
 			o.Violation("witness: set-value action {pointType: T, value: V, valueText: X, nodeID: N}: %s", strings.Join(uniqStrings(badSends), "; "))
 		case len(undecSends) > 0:
 			o.Undecided("%s", strings.Join(uniqStrings(undecSends), "; "))
+		case missing > 0 && len(opaque) > 0:
+			// the send may sit in a helper that was not evaluated: nothing is established
+			o.Undecided("a path through the action loop sends nothing to action.nodeID, but the current action is handed to %s, which was not evaluated", strings.Join(uniqStrings(opaque), ", "))
 		case missing > 0:
 			o.Violation("witness: set-value action with nodeID and pointType set: a path through the action loop sends nothing to action.nodeID")
 		case len(sends) == 0 || arrived == 0:
